@@ -76,7 +76,7 @@ SeqSet(s) == {s[i] : i \in DOMAIN s}
 MiscInit == [probe |-> [e \in EP |-> -1], thr |-> <<>>, cbs |-> <<>>, ackDue |-> [e \in EP |-> -1],
              incn |-> <<>>, fwdMax |-> [e \in EP |-> -1],
              nack |-> [line |-> 0, to |-> -1, set |-> {}, hb |-> FALSE], teardown |-> FALSE, calls |-> <<>>, inj |-> <<>>, dead |-> [e \in EP |-> FALSE], abortRx |-> [e \in EP |-> FALSE], fuzzed |-> FALSE, abortSeen |-> [e \in EP |-> FALSE], shutAt |-> <<>>, shutRet |-> <<>>, closedInc |-> <<>>, wdl |-> <<>>, rdl |-> <<>>, reqs |-> <<>>, gen |-> <<>>, performed |-> {}, genAtRx |-> <<>>, rsGen |-> <<>>,
-             pendReads |-> <<>>, hbCalls |-> <<>>, hbSeen |-> {}, txn |-> [e \in EP |-> 0], wfail |-> {}, rdBase |-> <<>>, rdOut |-> <<>>,
+             pendReads |-> <<>>, hbCalls |-> <<>>, hbSeen |-> {}, txn |-> [e \in EP |-> 0], wfail |-> {}, rdBase |-> <<>>, rdOut |-> <<>>, bwOwed |-> {},
              t3h |-> [e \in EP |-> [t |-> -1, iv |-> 0, cum |-> -1, n |-> -1]]]
 
 InitVars ==
@@ -141,7 +141,18 @@ TrWCall ==
 TrWrite ==
   /\ IsEv("write")
   /\ msg' = (E.id :> (E @@ [inc |-> msg[E.id].inc, callLine |-> msg[E.id].callLine, snapSt |-> msg[E.id].snapSt, retLine |-> l])) @@ msg
-  /\ misc' = IF E.ok THEN misc ELSE [misc EXCEPT !.wfail = @ \cup {<<E.ep, E.sid>>}]
+  \* blocking-write mode: the call returns only after everything written before it was handed over for
+  \* transmission. "Handed over" is not yet "on the wire" at the instant of the return (the write loop puts the
+  \* gathered packets on the transport after releasing the lock), so the obligation is recorded here and judged
+  \* at the endpoint's next quiescent point: every message whose write had RETURNED successfully before this
+  \* call was made has then been put on the wire at least once (C18_BlockingWriteWaits)
+  /\ misc' = IF ~E.ok THEN [misc EXCEPT !.wfail = @ \cup {<<E.ep, E.sid>>}]
+             ELSE IF Cfg(E.ep).bw
+             THEN LET earlier == {id \in DOMAIN msg : msg[id].ep = E.ep /\ msg[id].ok /\ msg[id].len > 0 /\ msg[id].ev = "write"
+                                                        /\ msg[id].retLine < msg[E.id].callLine}
+                      unsent == {id \in earlier : ~\E t \in DOMAIN ch[E.ep] : ch[E.ep][t].id = id /\ ch[E.ep][t].e}
+                  IN [misc EXCEPT !.bwOwed = @ \cup {<<E.ep, E.id, x>> : x \in unsent}]
+             ELSE misc
   /\ LET k == <<E.ep, E.sid>> IN
        order' = IF ~E.ok /\ E.len > 0
                 THEN (k :> SelectSeq(Get(order, k, <<>>), LAMBDA x : x # E.id)) @@ order
@@ -149,15 +160,6 @@ TrWrite ==
   /\ viol' = viol \cup WriteViol(E)
               \cup (IF E.ok /\ sn[E.ep] # NoSnap /\ sn[E.ep].st # "established" /\ msg[E.id].snapSt # "established"
                     THEN {V("C18_WriteNotEstablishedRejected", <<E.ep, E.sid, E.id, sn[E.ep].st>>)} ELSE {})
-              \* blocking-write mode: the call returns only after everything written before it was handed over
-              \* for transmission (every message whose write had RETURNED successfully before this call was made
-              \* has been put on the wire at least once; calls still blocked concurrently are not "previous")
-              \cup (IF E.ok /\ Cfg(E.ep).bw
-                    THEN LET earlier == {id \in DOMAIN msg : msg[id].ep = E.ep /\ msg[id].ok /\ msg[id].len > 0 /\ msg[id].ev = "write"
-                                                               /\ msg[id].retLine < msg[E.id].callLine}
-                             unsent == {id \in earlier : ~\E t \in DOMAIN ch[E.ep] : ch[E.ep][t].id = id /\ ch[E.ep][t].e}
-                         IN IF unsent # {} THEN {V("C18_BlockingWriteWaits", <<E.ep, E.id, CHOOSE id \in unsent : TRUE>>)} ELSE {}
-                    ELSE {})
               \cup (IF ~E.ok /\ E.err \in {"deadline", "ctx"} /\ Get(misc.wdl, <<E.ep, E.sid>>, 0) > 0 /\ E.t < misc.wdl[<<E.ep, E.sid>>]
                     THEN {V("C18_WriteDeadlineEarly", <<E.ep, E.id, E.t, misc.wdl[<<E.ep, E.sid>>]>>)} ELSE {})
               \cup (IF E.ok /\ Get(misc.closedInc, <<E.ep, E.sid>>, 0) >= msg[E.id].inc /\ msg[E.id].inc > 0
@@ -643,6 +645,8 @@ SnapViol(s, R) ==
   IN
     (IF badWindow # {} THEN {V("C10_Window", <<e, nd[Min(badWindow)].tsn, nd[Min(badWindow)].after, s.cwnd, arw[e]>>)} ELSE {})
     \cup (IF Established(s) /\ s.cwnd < mtu THEN {V("C10_CwndFloor", <<e, s.cwnd>>)} ELSE {})
+    \cup {V("C18_BlockingWriteWaits", <<o[1], o[2], o[3]>>) :
+             o \in {q \in misc.bwOwed : q[1] = e /\ ~\E t \in DOMAIN ch[e] : ch[e][t].id = q[3] /\ ch[e][t].e}}
     \* C19: consecutive T3-rtx expiries with no progress of the cumulative ack point in between back off:
     \* each interval is twice the one before, capped at RTO.max (only a SACK acknowledging the earliest
     \* outstanding chunk, or an empty flight, restarts the timer afresh)
@@ -757,7 +761,7 @@ SnapStep(s, changed) ==
   /\ acc' = [acc EXCEPT ![e] = @ \cup x.seen]
   /\ newData' = [newData EXCEPT ![e] = <<>>]
   /\ sackEv' = [sackEv EXCEPT ![e] = <<>>]
-  /\ misc' = [misc EXCEPT !.cbs = [k \in DOMAIN @ |-> IF k[1] = e THEN 0 ELSE @[k]], !.txn[e] = 0, !.abortSeen[e] = FALSE, !.rsGen = x.G, !.wfail = {k \in @ : k[1] # e},
+  /\ misc' = [misc EXCEPT !.cbs = [k \in DOMAIN @ |-> IF k[1] = e THEN 0 ELSE @[k]], !.txn[e] = 0, !.abortSeen[e] = FALSE, !.rsGen = x.G, !.wfail = {k \in @ : k[1] # e}, !.bwOwed = {q \in @ : q[1] # e},
                            !.t3h[e] = IF sn[e] # NoSnap /\ s.nt3 > sn[e].nt3
                                       THEN [t |-> s.t, cum |-> s.cumack, n |-> s.nt3,
                                             iv |-> IF @.t >= 0 /\ @.cum = s.cumack /\ @.n + 1 = s.nt3 THEN s.t - @.t ELSE 0]
